@@ -19,7 +19,7 @@ func init() {
 			"the in-flight slot (the bounded responses queue, capacity MaxOpenRequests-1) should be taken before the request is written (C14.slot — violated on the pinned tree, known finding F7); all connection reads/writes go through readFull/write, which set the deadline first (C14.deadline); sendAndReceive returns only after receiving from the promise (C14.await). " +
 			"Shared with C10: the response header length is checked before anything else is believed, so that the body buffer size computed from it cannot be negative (C10.cap). " +
 			"NOT covered: server behaviours, Close racing with in-flight calls, fairness between callers.",
-		Rules: []func(*Ctx){c14Lock, c14OneOutcome, c14Slot, c14Deadline, c14Await, c14OpenOnce, c14ConnErr, c10Cap, c14ErrLost, c14ReceiverGoneBeforeTeardown, c14ReopenableAfterClose},
+		Rules: []func(*Ctx){c14Lock, c14OneOutcome, c14Slot, c14Deadline, c14Await, c14OpenOnce, c14ConnErr, c10Cap, c14ErrLost, c14ReceiverGoneBeforeTeardown, c14ReopenableAfterClose, c14FailedOpenReopenable, c14CloseTeardownComplete, c14LoopVarCapture},
 	})
 }
 
